@@ -867,6 +867,10 @@ class Interp:
             hook = self.reg.heap_hook(h.kind)
             if hook:
                 return hook.slice(self, base, lo, hi, node)
+        if isinstance(base, (VNone, VInt, VBool, VReal, VClass)):
+            # None[...] / 3[...]: CPython raises TypeError ('... object is not subscriptable')
+            self.ctx.oblige('safe.subscriptable', False, 'safe', 'line %s' % getattr(node, 'lineno', '?'))
+            self.raise_exc('TypeError')
         raise Unsupported('slice of %r' % (base,))
 
     def concrete_int(self, v, default):
@@ -919,6 +923,9 @@ class Interp:
                 return hook.index(self, base, idx, node)
         if isinstance(base, VModule) and base.name == 'os.environ':
             return self.call_extern('os.environ.__getitem__', [idx], {}, fr)
+        if isinstance(base, (VNone, VInt, VBool, VReal, VClass)):
+            self.ctx.oblige('safe.subscriptable', False, 'safe', 'line %s' % getattr(node, 'lineno', '?'))
+            self.raise_exc('TypeError')
         raise Unsupported('subscript of %r' % (base,))
 
     def dict_get(self, h, key, node):
